@@ -78,7 +78,7 @@ def spec_version(pv, sv, ts, rs, rip, rport, tsv, tip, tport, nonce, ua, sh, rel
     return out
 
 
-def _spec_parse_inv(raw):
+def _spec_parse_inv(raw, types=None):
     """reference decoding of a well-formed inv payload (count as CompactSize, then count 36-byte entries of known
     type, nothing else); None if it is not one"""
     if not raw:
@@ -91,7 +91,7 @@ def _spec_parse_inv(raw):
     body = raw[1 + width:]
     if len(body) != 36 * count:
         return None
-    rev = {v: k for k, v in INV_TYPES.items()}
+    rev = {v: k for k, v in (INV_TYPES if types is None else types).items()}
     items = []
     for i in range(count):
         tid = struct.unpack("<I", body[36 * i:36 * i + 4])[0]
@@ -1149,6 +1149,15 @@ def prop_oracle(c):
                             i, [t for t, _ in items], reg)
                     if (g[1][1][0], [tuple(x) for x in g[1][1][1]]) != want:
                         return "step %d: parse_inv_payload(inv_payload(...)) differs from the entries it was built from (%s)" % (i, reg)
+            elif st[0] in ("parse_inv", "parse_inventory"):
+                types = {k: v for k, v in tbl if k in usable}
+                raw = st[1] if st[0] == "parse_inv" else b"\x01" + st[1]
+                want = _spec_parse_inv(raw, types) if len(types) == len(tbl) else None
+                if want is not None:
+                    gv = None if g[0] != "ok" else (g[1] if st[0] == "parse_inv" else (1, [g[1]]))
+                    if gv is None or (gv[0], [tuple(x) for x in gv[1]]) != want:
+                        return "step %d: a well-formed inv entry of type %s (a type the library builds) is not parsed back: %s (%s)" % (
+                            i, [t for t, _ in want[1]], "refused" if gv is None else gv, reg)
             elif st[0] == "ser_recv":
                 _, magic, cmd, payload, rest, sched = st
                 if cmd in cmds and 1 <= len(cmd) <= 12 and not cmd.endswith(b"\0") and all(x > 0 for x in sched):
